@@ -3,6 +3,7 @@ package main
 import (
 	"fmt"
 	"math/rand"
+	"regexp"
 	"strings"
 
 	"github.com/pip-services3-gox/pip-services3-expressions-gox/calculator"
@@ -139,6 +140,9 @@ func (p *xprinter) expr(i int) {
 				lex = "\"" + n.Text + "\"" // an identifier spelled like a keyword is written as a quoted identifier
 			}
 		}
+		if !plainIdent.MatchString(n.Text) {
+			lex = "\"" + strings.ReplaceAll(n.Text, "\"", "\"\"") + "\"" // any other name: quoted, its quotes doubled
+		}
 		p.out = append(p.out, xtok{"Variable", n.Text, lex})
 	case "call":
 		p.out = append(p.out, xtok{"Variable", n.Text, n.Text}, sym("("))
@@ -219,6 +223,7 @@ func (p *xprinter) plusify() {
 	p.out = out
 }
 
+var plainIdent = regexp.MustCompile(`^[A-Za-z_\x{c0}-\x{ff}][A-Za-z0-9_\x{c0}-\x{fffe}]*$`)
 var exprKeywords = map[string]bool{"AND": true, "OR": true, "NOT": true, "XOR": true, "LIKE": true, "IS": true, "IN": true, "NULL": true, "TRUE": true, "FALSE": true}
 
 // render joins lexemes with spacing, comments and letter-case variation (decorate=false: single spaces, as is)
@@ -677,7 +682,7 @@ func (x *xgen) leaf() int {
 	x.nc++
 	switch v := x.r.Intn(12); {
 	case v < 5:
-		k := []string{"a", "b", "c", "x1", "Delta", "été_2", "a", "b", "true", "Null", "and", "like"}[x.r.Intn(12)]
+		k := []string{"a", "b", "c", "x1", "Delta", "été_2", "a", "b", "true", "Null", "and", "like", "\"x\"", "a\"b", "x y", "\"", "1a", "\"c"}[x.r.Intn(18)]
 		sp := k
 		if x.r.Intn(3) == 0 {
 			sp = strings.ToUpper(k)
